@@ -461,8 +461,11 @@ def apply_op(op, slots):
             _operand(slots, d)
     except Skip:
         return ["skip"], None, None
-    args = [materialise(a, slots) for a in op.get("args", [])]
-    kwargs = {k: materialise(v, slots) for k, v in op.get("kwargs", {}).items()}
+    try:
+        args = [materialise(a, slots) for a in (op.get("args") or [])]
+        kwargs = {k: materialise(v, slots) for k, v in (op.get("kwargs") or {}).items()}
+    except Exception:  # noqa -- an argument spec that cannot be built is not an operation
+        return ["skip"], None, None
     before = [freeze(a) for a in args] + [freeze(v) for v in kwargs.values()]
     res = None
     try:
@@ -933,6 +936,105 @@ def gen_state_op(rng, internal=True):
     if r < 0.85:
         return {"op": "lru_resize", "args": [m, n, rng.choice(LRU_SIZES)]}
     return {"op": "lru_clear", "args": [m, n]}
+
+
+def _leaves(spec, path, acc):
+    """Paths of mutable leaves (plain str / int / bool / None / strsub) in args/kwargs."""
+    if isinstance(spec, dict):
+        if spec.get("$") == "strsub":
+            acc.append((path, spec))
+        elif spec.get("$") in ("url", "qproxy", "text"):
+            return
+        elif "$" in spec:
+            if spec["$"] in ("dict", "md", "cimd", "mdp", "pairs", "list", "tuple"):
+                _leaves(spec.get("v"), path + ["v"], acc)
+        else:
+            for k, v in spec.items():
+                _leaves(v, path + [k], acc)
+    elif isinstance(spec, list):
+        for i, v in enumerate(spec):
+            _leaves(v, path + [i], acc)
+    elif isinstance(spec, (str, int, float, bool)) or spec is None:
+        acc.append((path, spec))
+
+
+def _set_path(root, path, value):
+    cur = root
+    for k in path[:-1]:
+        cur = cur[k]
+    cur[path[-1]] = value
+
+
+def gen_variant(rng, ops, candidates):
+    """A near-duplicate of an earlier operation: one argument replaced by a value that is
+    ==/hash-equal but of another type (1 / True / 1.0, str / str subclass), or one flag
+    toggled, or the same text routed through a sibling parameter.  This is what makes the
+    *same cache key arrive by two routes*."""
+    import copy as _c
+
+    if not candidates:
+        return None
+    src = ops[rng.choice(candidates)]
+    op = _c.deepcopy({k: v for k, v in src.items() if k in ("op", "on", "other", "args", "kwargs")})
+    op.setdefault("args", [])
+    r = rng.random()
+    kw = op.get("kwargs")
+    if kw is not None and r < 0.25:
+        flags = [k for k in ("encoded", "keep_query", "keep_fragment") if True]
+        f = rng.choice(flags)
+        if op["op"] in ("new", "build", "with_path", "joinpath") and f == "encoded" or op["op"] in ("with_path", "with_name", "with_suffix") and f != "encoded":
+            kw[f] = not kw.get(f, False)
+            return op
+    if op["op"] == "build" and kw and r < 0.4:
+        if ("host" in kw and isinstance(kw["host"], str) and "authority" not in kw
+                and all(isinstance(kw.get(x), (str, type(None))) for x in ("user", "password"))
+                and (kw.get("port") is None or type(kw.get("port")) is int)):
+            h = kw.pop("host")
+            if ":" in h and not h.startswith("["):
+                h = "[" + h + "]"
+            port = kw.pop("port", None)
+            user = kw.pop("user", None)
+            pw = kw.pop("password", None)
+            a = h if port is None else "%s:%s" % (h, port)
+            if user is not None or pw is not None:
+                a = (user or "") + ((":" + pw) if pw is not None else "") + "@" + a
+            kw["authority"] = a
+            return op
+        if "authority" in kw and isinstance(kw["authority"], str):
+            kw["host"] = kw.pop("authority")
+            return op
+    acc = []
+    if isinstance(op.get("args"), list):
+        _leaves(op["args"], ["args"], acc)
+    if isinstance(op.get("kwargs"), dict):
+        _leaves(op["kwargs"], ["kwargs"], acc)
+    acc = [(p_, v_) for p_, v_ in acc if len(p_) >= 2]
+    rng.shuffle(acc)
+    for path, val in acc:
+        if isinstance(val, dict):  # strsub -> plain
+            _set_path(op, path, val["v"])
+            return op
+        if isinstance(val, bool):
+            _set_path(op, path, int(val))
+            return op
+        if isinstance(val, int):
+            if val in (0, 1) and rng.random() < 0.6:
+                _set_path(op, path, bool(val))
+            else:
+                _set_path(op, path, {"$": "float", "v": repr(float(val))})
+            return op
+        if isinstance(val, str) and path[-1] != 0 or isinstance(val, str) and op["op"] != "read" and op["op"] != "cmp" and op["op"] not in STATE_OPS and op["op"] != "lru_resize":
+            if rng.random() < 0.5:
+                _set_path(op, path, {"$": "strsub", "v": val})
+            elif val == "":
+                _set_path(op, path, None)
+            else:
+                continue
+            return op
+        if val is None and rng.random() < 0.5:
+            _set_path(op, path, "")
+            return op
+    return None
 
 
 def closure(ops, k):
